@@ -36,6 +36,8 @@ fn main() {
         }
         "run" => c12::run_main(args.iter().any(|a| a == "--full")),
         "cold" => c12::cold_main(),
+        "c09-chunk" => c09::chunk_main(),
+        "c09-exec" => c09::exec_main(),
         "replay" => {
             let path = args.get(2).cloned().unwrap_or_default();
             let text = match std::fs::read_to_string(&path) {
